@@ -143,7 +143,7 @@ def afromAffineObj (r : Ref) (gen : Bool) : AM G Ref := do
 /-- `-P` for a `PointJacobi` (legacy points: outside the refinement, see `Covered`) -/
 def anegObj (r : Ref) : AM G Ref := do
   match ← agetPt r with
-  | .inf => raise .attributeError
+  | .inf => AM.pure .inf
   | .jac g o _ => alloc (.pj (-g) o false)
   | .aff _ _ => raise .other
 
@@ -293,7 +293,7 @@ def amkKeyObj (g r : Ref) : AM G Ref := do
   let q ← (match ← agetPt r with
     | .jac _ _ _ => (AM.pure r : AM G Ref)
     | .aff _ _ => afromAffineObj r false
-    | .inf => raise .other)
+    | .inf => raise .malformedPoint)
   let some x ← areadX sp q | raise .other
   let some y ← areadY sp q | raise .other
   let .jac _ go _ ← agetPt g | raise .other
